@@ -232,6 +232,10 @@ Proof.
   - rewrite IH, hdp_app. tauto.
 Qed.
 
+Lemma seg_cons H p a t q :
+  prev_of H a = p -> next_of H a = hdp t q -> seg H (Some a) t q -> seg H p (a :: t) q.
+Proof. simpl. auto. Qed.
+
 Lemma seg_snoc H p l a q :
   seg H p (l ++ [a]) q <-> seg H p l (Some a) /\ prev_of H a = lastp p l /\ next_of H a = q.
 Proof. rewrite seg_app. simpl. tauto. Qed.
@@ -342,7 +346,8 @@ Proof.
   destruct (@exists_last _ (x :: t)) as [l' [a E]]; [discriminate|]. eauto.
 Qed.
 
-Ltac len_tac := rewrite ?length_hsp, ?length_hsn, ?app_length; simpl; auto; try lia.
+Ltac len_tac :=
+  repeat (rewrite length_hsp || rewrite length_hsn || rewrite app_length); simpl; auto; try lia.
 
 Ltac notin_tac :=
   solve [ assumption | lia | congruence
@@ -408,7 +413,7 @@ Proof.
     assert (Hc : c < length H) by (apply Hal; simpl; auto).
     nd Hnd.
     unfold remove. ev. rewrite Hnx.
-    rewrite ptr_eqb_lastp_false by notin_tac. ev. Show. rewrite Hnx, Hp. ev.
+    rewrite ptr_eqb_lastp_false by notin_tac. ev. rewrite ?Hnx, ?Hp. ev.
     exists (hsp H c None). split; [reflexivity|]. split; [len_tac|]. split; [apply map_value_hsp|].
     apply seg_hsp_hd with (p := Some n); [notin_tac|exact Hc|]. simpl. auto.
   - (* l1' ++ [a; n] *)
@@ -417,8 +422,8 @@ Proof.
     assert (Ha : a < length H) by (apply Hal; rewrite !in_app_iff; simpl; auto).
     nd Hnd.
     unfold remove. rewrite !hdp_app, !lastp_app. ev.
-    rewrite ptr_eqb_hdp_false by notin_tac. ev. rewrite Hp, Hnx. ev.
-    lk. rewrite Hp.
+    rewrite ptr_eqb_hdp_false by notin_tac. ev. rewrite ?Hp, ?Hnx. ev.
+    lk. rewrite ?Hp.
     exists (hsn H a None). split; [reflexivity|]. split; [len_tac|]. split; [apply map_value_hsn|].
     apply seg_hsn_last with (q := Some n); [notin_tac|exact Ha|exact Hs].
   - (* l1' ++ a :: n :: c :: l2' *)
@@ -428,8 +433,8 @@ Proof.
     assert (Hc : c < length H) by (apply Hal; rewrite !in_app_iff; simpl; auto).
     nd Hnd.
     unfold remove. rewrite !hdp_app, !lastp_app. ev.
-    rewrite ptr_eqb_hdp_false by notin_tac. ev. rewrite Hp, Hnx. ev.
-    rewrite ptr_eqb_lastp_false by notin_tac. ev. lk. rewrite Hp, Hnx. ev.
+    rewrite ptr_eqb_hdp_false by notin_tac. ev. rewrite ?Hp, ?Hnx. ev.
+    rewrite ptr_eqb_lastp_false by notin_tac. ev. lk. rewrite ?Hp, ?Hnx. ev.
     exists (hsp (hsn H a (Some c)) c (Some a)).
     split; [reflexivity|]. split; [len_tac|].
     split; [rewrite map_value_hsp, map_value_hsn; reflexivity|].
@@ -438,4 +443,867 @@ Proof.
       apply seg_hsn_last with (q := Some n); [notin_tac|exact Ha|exact Hs1].
     + apply seg_hsp_hd with (p := Some n); [notin_tac|len_tac|].
       apply seg_hsn_notin; [notin_tac|]. simpl. auto.
+Qed.
+
+(* the part of MoveBefore / MoveAfter after l.remove(node) *)
+Definition link_before (node mark : ptr) (s : state) : result state :=
+  m <- deref s mark ;;
+  s <- set_prev node (prev m) s ;;
+  s <- set_prev mark node s ;;
+  s <- set_next node mark s ;;
+  n <- deref s node ;;
+  s <- (if is_nil (prev n) then Ok s else set_next (prev n) node s) ;;
+  Ok (if ptr_eqb (front (lst s)) mark then set_front node s else s).
+
+Definition link_after (node mark : ptr) (s : state) : result state :=
+  m <- deref s mark ;;
+  s <- set_next node (next m) s ;;
+  s <- set_next mark node s ;;
+  s <- set_prev node mark s ;;
+  n <- deref s node ;;
+  s <- (if is_nil (next n) then Ok s else set_prev (next n) node s) ;;
+  Ok (if ptr_eqb (back (lst s)) mark then set_back node s else s).
+
+Lemma move_before_unfold node mark s :
+  move_before node mark s =
+  if ptr_eqb node mark then Ok s else s' <- remove node s ;; link_before node mark s'.
+Proof. reflexivity. Qed.
+
+Lemma move_after_unfold node mark s :
+  move_after node mark s =
+  if ptr_eqb node mark then Ok s else s' <- remove node s ;; link_after node mark s'.
+Proof. reflexivity. Qed.
+
+Lemma link_before_ok H f b z L1 m L2 n :
+  Lk H f b (L1 ++ m :: L2) -> n < length H -> ~ In n (L1 ++ m :: L2) ->
+  exists H',
+    link_before (Some n) (Some m) (mkSt H (mkHdr f b z))
+    = Ok (mkSt H' (mkHdr (hdp (L1 ++ n :: m :: L2) None) (lastp None (L1 ++ n :: m :: L2)) z))
+    /\ length H' = length H /\ map value H' = map value H
+    /\ seg H' None (L1 ++ n :: m :: L2) None.
+Proof.
+  intros [Hnd [Hal [Hf [Hb Hs]]]] Hn Hni. subst f b.
+  assert (Hm : m < length H) by (apply Hal; rewrite in_app_iff; simpl; auto).
+  destruct (list_rev_case L1) as [-> | [L1' [a ->]]].
+  - simpl in Hs. destruct Hs as [Hpm [Hnm Hs]].
+    cbn [app] in Hnd, Hal, Hni. simpl in Hni. nd Hnd.
+    unfold link_before. ev. rewrite ?Hpm. ev. lk. ev.
+    exists (hsn (hsp (hsp H n None) m (Some n)) n (Some m)).
+    split; [reflexivity|]. split; [len_tac|].
+    split; [rewrite map_value_hsn, !map_value_hsp; reflexivity|].
+    apply seg_cons; [lk; reflexivity|lk; reflexivity|].
+    apply seg_hsn_notin; [notin_tac|].
+    apply seg_hsp_hd with (p := None); [notin_tac|len_tac|].
+    apply seg_hsp_notin; [notin_tac|]. simpl. auto.
+  - apply seg_app in Hs. rewrite lastp_app in Hs. simpl in Hs.
+    destruct Hs as [Hs1 [Hpm [Hnm Hs2]]].
+    assert (Ha : a < length H) by (apply Hal; rewrite !in_app_iff; simpl; auto).
+    rewrite !in_app_iff in Hni. simpl in Hni. nd Hnd.
+    unfold link_before. rewrite !hdp_app, !lastp_app. ev. rewrite ?Hpm. ev. lk. ev.
+    rewrite ptr_eqb_hdp_false by notin_tac.
+    exists (hsn (hsn (hsp (hsp H n (Some a)) m (Some n)) n (Some m)) a (Some n)).
+    split; [reflexivity|]. split; [len_tac|].
+    split; [rewrite !map_value_hsn, !map_value_hsp; reflexivity|].
+    apply seg_app. rewrite lastp_app. simpl hdp. simpl lastp. split.
+    + apply seg_hsn_last with (q := Some m); [notin_tac|len_tac|].
+      apply seg_hsn_notin; [notin_tac|].
+      apply seg_hsp_notin; [notin_tac|].
+      apply seg_hsp_notin; [notin_tac|]. exact Hs1.
+    + apply seg_cons; [lk; reflexivity|lk; reflexivity|].
+      apply seg_hsn_notin; [notin_tac|].
+      apply seg_hsn_notin; [notin_tac|].
+      apply seg_hsp_hd with (p := Some a); [notin_tac|len_tac|].
+      apply seg_hsp_notin; [notin_tac|]. simpl. auto.
+Qed.
+
+Lemma link_after_ok H f b z L1 m L2 n :
+  Lk H f b (L1 ++ m :: L2) -> n < length H -> ~ In n (L1 ++ m :: L2) ->
+  exists H',
+    link_after (Some n) (Some m) (mkSt H (mkHdr f b z))
+    = Ok (mkSt H' (mkHdr (hdp (L1 ++ m :: n :: L2) None) (lastp None (L1 ++ m :: n :: L2)) z))
+    /\ length H' = length H /\ map value H' = map value H
+    /\ seg H' None (L1 ++ m :: n :: L2) None.
+Proof.
+  intros [Hnd [Hal [Hf [Hb Hs]]]] Hn Hni. subst f b.
+  assert (Hm : m < length H) by (apply Hal; rewrite in_app_iff; simpl; auto).
+  apply seg_app in Hs. simpl in Hs. destruct Hs as [Hs1 [Hpm [Hnm Hs2]]].
+  rewrite in_app_iff in Hni. simpl in Hni.
+  destruct L2 as [|c L2'].
+  - simpl in Hnm. nd Hnd.
+    unfold link_after. rewrite !hdp_app, !lastp_app. ev. rewrite ?Hnm. ev. lk. ev.
+    exists (hsp (hsn (hsn H n None) m (Some n)) n (Some m)).
+    split; [reflexivity|]. split; [len_tac|].
+    split; [rewrite map_value_hsp, !map_value_hsn; reflexivity|].
+    apply seg_app. simpl hdp. split.
+    + apply seg_hsp_notin; [notin_tac|].
+      apply seg_hsn_notin; [notin_tac|].
+      apply seg_hsn_notin; [notin_tac|]. exact Hs1.
+    + apply seg_cons; [lk; exact Hpm|lk; reflexivity|].
+      apply seg_cons; [lk; reflexivity|lk; reflexivity|]. exact I.
+  - simpl in Hnm, Hs2. destruct Hs2 as [Hpc [Hnc Hs2]].
+    assert (Hc : c < length H) by (apply Hal; rewrite !in_app_iff; simpl; auto).
+    simpl in Hni. nd Hnd.
+    unfold link_after. rewrite !hdp_app, !lastp_app. ev. rewrite ?Hnm. ev. lk. ev.
+    rewrite ptr_eqb_lastp_false by notin_tac.
+    exists (hsp (hsp (hsn (hsn H n (Some c)) m (Some n)) n (Some m)) c (Some n)).
+    split; [reflexivity|]. split; [len_tac|].
+    split; [rewrite !map_value_hsp, !map_value_hsn; reflexivity|].
+    apply seg_app. simpl hdp. split.
+    + apply seg_hsp_notin; [notin_tac|].
+      apply seg_hsp_notin; [notin_tac|].
+      apply seg_hsn_notin; [notin_tac|].
+      apply seg_hsn_notin; [notin_tac|]. exact Hs1.
+    + apply seg_cons; [lk; exact Hpm|lk; reflexivity|].
+      apply seg_cons; [lk; reflexivity|lk; reflexivity|].
+      apply seg_hsp_hd with (p := Some m); [notin_tac|len_tac|].
+      apply seg_hsp_notin; [notin_tac|].
+      apply seg_hsn_notin; [notin_tac|].
+      apply seg_hsn_notin; [notin_tac|]. simpl. auto.
+Qed.
+
+Lemma push_front_ok H f b z l v :
+  Lk H f b l ->
+  exists H',
+    push_front v (mkSt H (mkHdr f b z))
+    = Ok (mkSt H' (mkHdr (hdp (length H :: l) None) (lastp None (length H :: l)) (z + 1)%Z))
+    /\ length H' = S (length H) /\ map value H' = map value H ++ [v]
+    /\ seg H' None (length H :: l) None.
+Proof.
+  intros [Hnd [Hal [Hf [Hb Hs]]]]. subst f b.
+  destruct l as [|a t].
+  - unfold push_front. ev.
+    exists (H ++ [mkCell None None v]).
+    split; [reflexivity|]. split; [len_tac|]. split; [rewrite map_app; reflexivity|].
+    apply seg_cons; [lk; reflexivity|lk; reflexivity|exact I].
+  - assert (Ha : a < length H) by (apply Hal; simpl; auto).
+    destruct (lastp_some a t) as [y [Ey _]].
+    unfold push_front. ev. rewrite Ey. ev.
+    exists (hsp (H ++ [mkCell None (Some a) v]) a (Some (length H))).
+    split; [reflexivity|]. split; [len_tac|].
+    split; [rewrite map_value_hsp, map_app; reflexivity|].
+    apply seg_cons; [lk; reflexivity|lk; reflexivity|].
+    nd Hnd.
+    apply seg_hsp_hd with (p := None); [notin_tac|len_tac|].
+    apply seg_alloc; [exact Hal|exact Hs].
+Qed.
+
+Lemma push_back_ok H f b z l v :
+  Lk H f b l ->
+  exists H',
+    push_back v (mkSt H (mkHdr f b z))
+    = Ok (mkSt H' (mkHdr (hdp (l ++ [length H]) None) (lastp None (l ++ [length H])) (z + 1)%Z))
+    /\ length H' = S (length H) /\ map value H' = map value H ++ [v]
+    /\ seg H' None (l ++ [length H]) None.
+Proof.
+  intros [Hnd [Hal [Hf [Hb Hs]]]]. subst f b.
+  destruct (list_rev_case l) as [-> | [l' [a ->]]].
+  - unfold push_back. ev.
+    exists (H ++ [mkCell None None v]).
+    split; [reflexivity|]. split; [len_tac|]. split; [rewrite map_app; reflexivity|].
+    apply seg_cons; [lk; reflexivity|lk; reflexivity|exact I].
+  - assert (Ha : a < length H) by (apply Hal; rewrite in_app_iff; simpl; auto).
+    assert (Hf : exists y, hdp (l' ++ [a]) None = Some y).
+    { destruct l' as [|y t]; simpl; eauto. }
+    destruct Hf as [y Ey].
+    rewrite hdp_app in Ey. simpl in Ey.
+    unfold push_back. rewrite !lastp_app, !hdp_app. ev. rewrite !Ey. ev.
+    exists (hsn (H ++ [mkCell (Some a) None v]) a (Some (length H))).
+    split; [reflexivity|]. split; [len_tac|].
+    split; [rewrite map_value_hsn, map_app; reflexivity|].
+    nd Hnd.
+    apply seg_snoc. rewrite lastp_app. simpl lastp. split; [|split; [lk; reflexivity|lk; reflexivity]].
+    apply seg_hsn_last with (q := None); [notin_tac|len_tac|].
+    apply seg_alloc; [exact Hal|exact Hs].
+Qed.
+
+Lemma insert_before_ok H f b z L1 m L2 v :
+  Lk H f b (L1 ++ m :: L2) ->
+  exists H',
+    insert_before v (Some m) (mkSt H (mkHdr f b z))
+    = Ok (mkSt H' (mkHdr (hdp (L1 ++ length H :: m :: L2) None)
+                         (lastp None (L1 ++ length H :: m :: L2)) (z + 1)%Z))
+    /\ length H' = S (length H) /\ map value H' = map value H ++ [v]
+    /\ seg H' None (L1 ++ length H :: m :: L2) None.
+Proof.
+  intros [Hnd [Hal [Hf [Hb Hs]]]]. subst f b.
+  assert (Hm : m < length H) by (apply Hal; rewrite in_app_iff; simpl; auto).
+  destruct (list_rev_case L1) as [-> | [L1' [a ->]]].
+  - simpl in Hs. destruct Hs as [Hpm [Hnm Hs]].
+    cbn [app] in Hnd, Hal. nd Hnd.
+    unfold insert_before. ev. rewrite ?Hpm. ev. lk. cbn [prev]. ev.
+    exists (hsp (H ++ [mkCell None (Some m) v]) m (Some (length H))).
+    split; [reflexivity|]. split; [len_tac|].
+    split; [rewrite map_value_hsp, map_app; reflexivity|].
+    apply seg_cons; [lk; reflexivity|lk; reflexivity|].
+    apply seg_hsp_hd with (p := None); [notin_tac|len_tac|].
+    apply seg_alloc; [exact Hal|]. simpl. auto.
+  - apply seg_app in Hs. rewrite lastp_app in Hs. simpl in Hs.
+    destruct Hs as [Hs1 [Hpm [Hnm Hs2]]].
+    assert (Ha : a < length H) by (apply Hal; rewrite !in_app_iff; simpl; auto).
+    assert (Hal1 : forall x, In x (L1' ++ [a]) -> x < length H).
+    { intros x Hx. apply Hal. rewrite in_app_iff. auto. }
+    assert (Hal2 : forall x, In x (m :: L2) -> x < length H).
+    { intros x Hx. apply Hal. rewrite in_app_iff. auto. }
+    nd Hnd.
+    unfold insert_before. rewrite !hdp_app, !lastp_app. ev. rewrite ?Hpm. ev. lk. cbn [prev]. ev.
+    rewrite ptr_eqb_hdp_false by notin_tac.
+    exists (hsn (hsp (H ++ [mkCell (Some a) (Some m) v]) m (Some (length H))) a (Some (length H))).
+    split; [reflexivity|]. split; [len_tac|].
+    split; [rewrite map_value_hsn, map_value_hsp, map_app; reflexivity|].
+    apply seg_app. rewrite lastp_app. simpl hdp. simpl lastp. split.
+    + apply seg_hsn_last with (q := Some m); [notin_tac|len_tac|].
+      apply seg_hsp_notin; [notin_tac|].
+      apply seg_alloc; [exact Hal1|exact Hs1].
+    + apply seg_cons; [lk; reflexivity|lk; reflexivity|].
+      apply seg_hsn_notin; [notin_tac|].
+      apply seg_hsp_hd with (p := Some a); [notin_tac|len_tac|].
+      apply seg_alloc; [exact Hal2|]. simpl. auto.
+Qed.
+
+Lemma insert_after_ok H f b z L1 m L2 v :
+  Lk H f b (L1 ++ m :: L2) ->
+  exists H',
+    insert_after v (Some m) (mkSt H (mkHdr f b z))
+    = Ok (mkSt H' (mkHdr (hdp (L1 ++ m :: length H :: L2) None)
+                         (lastp None (L1 ++ m :: length H :: L2)) (z + 1)%Z))
+    /\ length H' = S (length H) /\ map value H' = map value H ++ [v]
+    /\ seg H' None (L1 ++ m :: length H :: L2) None.
+Proof.
+  intros [Hnd [Hal [Hf [Hb Hs]]]]. subst f b.
+  assert (Hm : m < length H) by (apply Hal; rewrite in_app_iff; simpl; auto).
+  assert (Hal1 : forall x, In x L1 -> x < length H).
+  { intros x Hx. apply Hal. rewrite in_app_iff. auto. }
+  apply seg_app in Hs. simpl in Hs. destruct Hs as [Hs1 [Hpm [Hnm Hs2]]].
+  destruct L2 as [|c L2'].
+  - simpl in Hnm. nd Hnd.
+    unfold insert_after. rewrite !hdp_app, !lastp_app. ev. rewrite ?Hnm. ev. lk. cbn [next]. ev.
+    exists (hsn (H ++ [mkCell (Some m) None v]) m (Some (length H))).
+    split; [reflexivity|]. split; [len_tac|].
+    split; [rewrite map_value_hsn, map_app; reflexivity|].
+    apply seg_app. simpl hdp. split.
+    + apply seg_hsn_notin; [notin_tac|].
+      apply seg_alloc; [exact Hal1|exact Hs1].
+    + apply seg_cons; [lk; exact Hpm|lk; reflexivity|].
+      apply seg_cons; [lk; reflexivity|lk; reflexivity|]. exact I.
+  - simpl in Hnm, Hs2. destruct Hs2 as [Hpc [Hnc Hs2]].
+    assert (Hc : c < length H) by (apply Hal; rewrite !in_app_iff; simpl; auto).
+    assert (Hal2 : forall x, In x (c :: L2') -> x < length H).
+    { intros x Hx. apply Hal. rewrite in_app_iff. simpl. simpl in Hx. tauto. }
+    nd Hnd.
+    unfold insert_after. rewrite !hdp_app, !lastp_app. ev. rewrite ?Hnm. ev. lk. cbn [next]. ev.
+    rewrite ptr_eqb_lastp_false by notin_tac.
+    exists (hsp (hsn (H ++ [mkCell (Some m) (Some c) v]) m (Some (length H))) c (Some (length H))).
+    split; [reflexivity|]. split; [len_tac|].
+    split; [rewrite map_value_hsp, map_value_hsn, map_app; reflexivity|].
+    apply seg_app. simpl hdp. split.
+    + apply seg_hsp_notin; [notin_tac|].
+      apply seg_hsn_notin; [notin_tac|].
+      apply seg_alloc; [exact Hal1|exact Hs1].
+    + apply seg_cons; [lk; exact Hpm|lk; reflexivity|].
+      apply seg_cons; [lk; reflexivity|lk; reflexivity|].
+      apply seg_hsp_hd with (p := Some m); [notin_tac|len_tac|].
+      apply seg_hsn_notin; [notin_tac|].
+      apply seg_alloc; [exact Hal2|]. simpl. auto.
+Qed.
+
+(* ------------------------------------------------------------------------------------------ *)
+(* H. one step of the model against one step of the ideal sequence                            *)
+(* ------------------------------------------------------------------------------------------ *)
+
+Definition Inv (s : state) (t : sstate) : Prop :=
+  Lk (heap s) (front (lst s)) (back (lst s)) (sl t) /\
+  size (lst s) = Z.of_nat (length (sl t)) /\
+  map value (heap s) = svals t.
+
+Lemma NoDup_insert (a : nat) l1 l2 : NoDup (l1 ++ l2) -> ~ In a (l1 ++ l2) -> NoDup (l1 ++ a :: l2).
+Proof.
+  induction l1 as [|x t IH]; simpl; intros Hnd Hni.
+  - constructor; assumption.
+  - apply NoDup_cons_iff in Hnd. destruct Hnd as [Hx Hnd]. constructor.
+    + rewrite in_app_iff in *. simpl. intuition congruence.
+    + apply IH; [exact Hnd|]. intro Hi. apply Hni. right. exact Hi.
+Qed.
+
+Lemma in_insert (x a : nat) l1 l2 : In x (l1 ++ a :: l2) <-> x = a \/ In x (l1 ++ l2).
+Proof. rewrite !in_app_iff. simpl. intuition congruence. Qed.
+
+Lemma NoDup_notin_l (m : nat) L1 L2 : NoDup (L1 ++ m :: L2) -> ~ In m L1.
+Proof.
+  intros Hnd Hi. apply NoDup_remove_2 in Hnd. apply Hnd. rewrite in_app_iff. auto.
+Qed.
+
+Lemma length_insert {A} (a : A) l1 l2 : length (l1 ++ a :: l2) = S (length (l1 ++ l2)).
+Proof. rewrite !app_length. simpl. lia. Qed.
+
+(* the state reached by a call that allocates one node *)
+Lemma inv_create H H' z (l l' : list nat) (vs : list Z) v :
+  map value H = vs -> z = Z.of_nat (length l) ->
+  NoDup l' -> (forall x, In x l' -> x < S (length H)) -> length l' = S (length l) ->
+  length H' = S (length H) -> map value H' = map value H ++ [v] -> seg H' None l' None ->
+  Inv (mkSt H' (mkHdr (hdp l' None) (lastp None l') (z + 1)%Z)) (mkS l' (vs ++ [v])).
+Proof.
+  intros Hv Hz Hnd Hal Hlen HlH Hv' Hs. unfold Inv, Lk. simpl.
+  split; [|split].
+  - repeat split; auto. intros x Hx. rewrite HlH. auto.
+  - rewrite Hlen. lia.
+  - rewrite Hv', Hv. reflexivity.
+Qed.
+
+(* the state reached by a call that only relinks *)
+Lemma inv_relink H H' z (l l' : list nat) (vs : list Z) :
+  map value H = vs -> z = Z.of_nat (length l) ->
+  NoDup l' -> (forall x, In x l' -> x < length H) -> length l' = length l ->
+  length H' = length H -> map value H' = map value H -> seg H' None l' None ->
+  Inv (mkSt H' (mkHdr (hdp l' None) (lastp None l') z)) (mkS l' vs).
+Proof.
+  intros Hv Hz Hnd Hal Hlen HlH Hv' Hs. unfold Inv, Lk. simpl.
+  split; [|split].
+  - repeat split; auto. intros x Hx. rewrite HlH. auto.
+  - rewrite Hlen. exact Hz.
+  - rewrite Hv', Hv. reflexivity.
+Qed.
+
+Lemma move_before_sim H f b z l vs n m :
+  Inv (mkSt H (mkHdr f b z)) (mkS l vs) -> In n l -> In m l ->
+  exists s', move_before (Some n) (Some m) (mkSt H (mkHdr f b z)) = Ok s' /\
+             Inv s' (mkS (if Nat.eqb n m then l else ins_before n m (rem n l)) vs).
+Proof.
+  intros HI Hin Him.
+  rewrite move_before_unfold. simpl ptr_eqb.
+  destruct (Nat.eqb n m) eqn:Enm; [eexists; split; [reflexivity|exact HI]|].
+  apply Nat.eqb_neq in Enm.
+  destruct HI as [HL [Hz Hv]]. simpl in HL, Hz, Hv.
+  destruct (in_split _ _ Hin) as [l1 [l2 ->]].
+  destruct (remove_ok H f b z l1 n l2 HL) as [H1 [E1 [Hl1 [Hv1 Hs1]]]].
+  destruct HL as [Hnd [Hal _]].
+  pose proof (NoDup_remove_1 _ _ _ Hnd) as Hnd1.
+  pose proof (NoDup_remove_2 _ _ _ Hnd) as Hni1.
+  rewrite rem_app by (eapply NoDup_notin_l; exact Hnd).
+  assert (Him1 : In m (l1 ++ l2)).
+  { apply in_insert in Him. destruct Him as [Him|Him]; [congruence|exact Him]. }
+  destruct (in_split _ _ Him1) as [L1 [L2 Esp]].
+  rewrite E1. cbn [bind]. rewrite Esp in *.
+  assert (HL1 : Lk H1 (hdp (L1 ++ m :: L2) None) (lastp None (L1 ++ m :: L2)) (L1 ++ m :: L2)).
+  { repeat split; auto. intros x Hx. rewrite Hl1. apply Hal. apply in_insert. right.
+    rewrite Esp. exact Hx. }
+  assert (Hn1 : n < length H1).
+  { rewrite Hl1. apply Hal. apply in_insert. left. reflexivity. }
+  destruct (link_before_ok H1 _ _ z L1 m L2 n HL1 Hn1 Hni1) as [H2 [E2 [Hl2 [Hv2 Hs2]]]].
+  rewrite E2. eexists. split; [reflexivity|].
+  rewrite ins_before_app by (eapply NoDup_notin_l; exact Hnd1).
+  apply (inv_relink H H2 z (l1 ++ n :: l2)); auto.
+  - apply NoDup_insert; assumption.
+  - intros x Hx. apply Hal. apply in_insert in Hx. apply in_insert.
+    destruct Hx as [Hx|Hx]; [left; exact Hx|right; rewrite Esp; exact Hx].
+  - rewrite (length_insert n L1), (length_insert n l1), Esp. reflexivity.
+  - congruence.
+  - congruence.
+Qed.
+
+Lemma move_after_sim H f b z l vs n m :
+  Inv (mkSt H (mkHdr f b z)) (mkS l vs) -> In n l -> In m l ->
+  exists s', move_after (Some n) (Some m) (mkSt H (mkHdr f b z)) = Ok s' /\
+             Inv s' (mkS (if Nat.eqb n m then l else ins_after n m (rem n l)) vs).
+Proof.
+  intros HI Hin Him.
+  rewrite move_after_unfold. simpl ptr_eqb.
+  destruct (Nat.eqb n m) eqn:Enm; [eexists; split; [reflexivity|exact HI]|].
+  apply Nat.eqb_neq in Enm.
+  destruct HI as [HL [Hz Hv]]. simpl in HL, Hz, Hv.
+  destruct (in_split _ _ Hin) as [l1 [l2 ->]].
+  destruct (remove_ok H f b z l1 n l2 HL) as [H1 [E1 [Hl1 [Hv1 Hs1]]]].
+  destruct HL as [Hnd [Hal _]].
+  pose proof (NoDup_remove_1 _ _ _ Hnd) as Hnd1.
+  pose proof (NoDup_remove_2 _ _ _ Hnd) as Hni1.
+  rewrite rem_app by (eapply NoDup_notin_l; exact Hnd).
+  assert (Him1 : In m (l1 ++ l2)).
+  { apply in_insert in Him. destruct Him as [Him|Him]; [congruence|exact Him]. }
+  destruct (in_split _ _ Him1) as [L1 [L2 Esp]].
+  rewrite E1. cbn [bind]. rewrite Esp in *.
+  assert (HL1 : Lk H1 (hdp (L1 ++ m :: L2) None) (lastp None (L1 ++ m :: L2)) (L1 ++ m :: L2)).
+  { repeat split; auto. intros x Hx. rewrite Hl1. apply Hal. apply in_insert. right.
+    rewrite Esp. exact Hx. }
+  assert (Hn1 : n < length H1).
+  { rewrite Hl1. apply Hal. apply in_insert. left. reflexivity. }
+  destruct (link_after_ok H1 _ _ z L1 m L2 n HL1 Hn1 Hni1) as [H2 [E2 [Hl2 [Hv2 Hs2]]]].
+  rewrite E2. eexists. split; [reflexivity|].
+  rewrite ins_after_app by (eapply NoDup_notin_l; exact Hnd1).
+  assert (Hni2 : ~ In n ((L1 ++ [m]) ++ L2)).
+  { rewrite <- app_assoc. exact Hni1. }
+  assert (Hnd2 : NoDup ((L1 ++ [m]) ++ L2)).
+  { rewrite <- app_assoc. exact Hnd1. }
+  apply (inv_relink H H2 z (l1 ++ n :: l2)); auto.
+  - change (L1 ++ m :: n :: L2) with (L1 ++ [m] ++ n :: L2). rewrite app_assoc.
+    apply NoDup_insert; assumption.
+  - intros x Hx. apply Hal. apply in_insert.
+    rewrite !in_app_iff in Hx. simpl in Hx.
+    destruct Hx as [Hx|[Hx|[Hx|Hx]]].
+    + right. rewrite Esp, in_app_iff. auto.
+    + right. rewrite Esp, in_app_iff. simpl. auto.
+    + left. congruence.
+    + right. rewrite Esp, in_app_iff. simpl. auto.
+  - rewrite (length_insert n l1), Esp, !app_length. simpl. lia.
+  - congruence.
+  - congruence.
+Qed.
+
+Lemma move_to_front_spec n f0 t0 :
+  n :: rem n (f0 :: t0) = if Nat.eqb n f0 then f0 :: t0 else ins_before n f0 (rem n (f0 :: t0)).
+Proof.
+  simpl. rewrite (Nat.eqb_sym f0 n). destruct (Nat.eqb n f0) eqn:E.
+  - apply Nat.eqb_eq in E. subst. reflexivity.
+  - simpl. rewrite Nat.eqb_refl. reflexivity.
+Qed.
+
+Lemma move_to_back_spec n y t0 :
+  NoDup (t0 ++ [y]) -> In n (t0 ++ [y]) ->
+  rem n (t0 ++ [y]) ++ [n] =
+  if Nat.eqb n y then t0 ++ [y] else ins_after n y (rem n (t0 ++ [y])).
+Proof.
+  intros Hnd Hin.
+  pose proof (NoDup_notin_l _ _ _ Hnd) as Hy.
+  destruct (Nat.eqb n y) eqn:E.
+  - apply Nat.eqb_eq in E. subst. rewrite rem_app by exact Hy. rewrite app_nil_r. reflexivity.
+  - apply Nat.eqb_neq in E.
+    rewrite in_app_iff in Hin. simpl in Hin.
+    assert (Hin0 : In n t0) by intuition congruence.
+    destruct (in_split _ _ Hin0) as [A [B ->]].
+    rewrite <- app_assoc in Hnd. simpl in Hnd.
+    rewrite <- app_assoc. simpl.
+    rewrite rem_app by (eapply NoDup_notin_l; exact Hnd).
+    apply NoDup_remove_1 in Hnd.
+    rewrite (app_assoc A B [y]).
+    rewrite ins_after_app.
+    + rewrite <- !app_assoc. reflexivity.
+    + rewrite app_assoc in Hnd. eapply NoDup_notin_l. exact Hnd.
+Qed.
+
+Lemma exec_sim s t o :
+  Inv s t -> valid_op t o = true ->
+  exists s', exec o s = Ok s' /\ Inv s' (sstep t o) /\
+    (forall n, o = LRemove n ->
+       n < length (heap s') /\ prev_of (heap s') n = None /\ next_of (heap s') n = None).
+Proof.
+  destruct s as [H [f b z]], t as [l vs]. intros HI Hvalid.
+  pose proof HI as [HL [Hz Hv]]. simpl in HL, Hz, Hv.
+  assert (Hlen : length vs = length H) by (rewrite <- Hv; apply map_length).
+  pose proof HL as [Hnd [Hal _]].
+  destruct o as [v|v|v m|v m|n|n m|n m|n|n|]; simpl in Hvalid; unfold sstep; simpl sl; simpl svals;
+    rewrite ?Hlen.
+  - (* PushFront *)
+    destruct (push_front_ok H f b z l v HL) as [H' [E [Hl' [Hv' Hs']]]].
+    simpl exec. rewrite E. eexists. split; [reflexivity|]. split; [|intros n0 E0; discriminate].
+    apply (inv_create H H' z l); auto.
+    + constructor; [|exact Hnd]. intro Hi. apply Hal in Hi. lia.
+    + intros x [<-|Hx]; [lia|]. apply Hal in Hx. lia.
+  - (* PushBack *)
+    destruct (push_back_ok H f b z l v HL) as [H' [E [Hl' [Hv' Hs']]]].
+    simpl exec. rewrite E. eexists. split; [reflexivity|]. split; [|intros n0 E0; discriminate].
+    apply (inv_create H H' z l); auto.
+    + apply NoDup_insert; rewrite app_nil_r; [exact Hnd|]. intro Hi. apply Hal in Hi. lia.
+    + intros x Hx. apply in_insert in Hx. rewrite app_nil_r in Hx.
+      destruct Hx as [->|Hx]; [lia|]. apply Hal in Hx. lia.
+    + rewrite length_insert, app_nil_r. reflexivity.
+  - (* InsertBefore *)
+    apply mem_In in Hvalid. destruct (in_split _ _ Hvalid) as [L1 [L2 ->]].
+    destruct (insert_before_ok H f b z L1 m L2 v HL) as [H' [E [Hl' [Hv' Hs']]]].
+    simpl exec. rewrite E. eexists. split; [reflexivity|]. split; [|intros n0 E0; discriminate].
+    rewrite ins_before_app by (eapply NoDup_notin_l; exact Hnd).
+    apply (inv_create H H' z (L1 ++ m :: L2)); auto.
+    + apply NoDup_insert; [exact Hnd|]. intro Hi. apply Hal in Hi. lia.
+    + intros x Hx. apply in_insert in Hx.
+      destruct Hx as [->|Hx]; [lia|]. apply Hal in Hx. lia.
+    + rewrite length_insert. reflexivity.
+  - (* InsertAfter *)
+    apply mem_In in Hvalid. destruct (in_split _ _ Hvalid) as [L1 [L2 ->]].
+    destruct (insert_after_ok H f b z L1 m L2 v HL) as [H' [E [Hl' [Hv' Hs']]]].
+    simpl exec. rewrite E. eexists. split; [reflexivity|]. split; [|intros n0 E0; discriminate].
+    rewrite ins_after_app by (eapply NoDup_notin_l; exact Hnd).
+    assert (Hnd2 : NoDup ((L1 ++ [m]) ++ L2)) by (rewrite <- app_assoc; exact Hnd).
+    assert (Hal2 : forall x, In x ((L1 ++ [m]) ++ L2) -> x < length H).
+    { intros x Hx. apply Hal. rewrite <- app_assoc in Hx. exact Hx. }
+    change (L1 ++ m :: length H :: L2) with (L1 ++ [m] ++ length H :: L2) in *.
+    rewrite app_assoc in *.
+    apply (inv_create H H' z (L1 ++ m :: L2)); auto.
+    + apply NoDup_insert; [exact Hnd2|]. intro Hi. apply Hal2 in Hi. lia.
+    + intros x Hx. apply in_insert in Hx.
+      destruct Hx as [->|Hx]; [lia|]. apply Hal2 in Hx. lia.
+    + rewrite length_insert, <- app_assoc. reflexivity.
+  - (* Remove *)
+    apply mem_In in Hvalid. destruct (in_split _ _ Hvalid) as [l1 [l2 ->]].
+    destruct (remove_ok H f b z l1 n l2 HL) as [H1 [E1 [Hl1 [Hv1 Hs1]]]].
+    assert (Hn : n < length H1).
+    { rewrite Hl1. apply Hal. apply in_insert. left. reflexivity. }
+    pose proof (NoDup_remove_1 _ _ _ Hnd) as Hnd1.
+    pose proof (NoDup_remove_2 _ _ _ Hnd) as Hni1.
+    simpl exec. unfold remove_node. rewrite E1. ev.
+    eexists. split; [reflexivity|]. split.
+    + rewrite rem_app by (eapply NoDup_notin_l; exact Hnd).
+      assert (Ez : (z - 1)%Z = Z.of_nat (length (l1 ++ l2))).
+      { rewrite Hz, length_insert. lia. }
+      unfold Inv, Lk. simpl. repeat split; auto.
+      * intros x Hx. repeat (rewrite length_hsp || rewrite length_hsn). rewrite Hl1.
+        apply Hal. apply in_insert. right. exact Hx.
+      * apply seg_hsn_notin; [exact Hni1|]. apply seg_hsp_notin; [exact Hni1|]. exact Hs1.
+      * rewrite map_value_hsn, map_value_hsp. congruence.
+    + intros n0 E0. injection E0 as <-. simpl. split; [len_tac|]. split; lk; reflexivity.
+  - (* MoveBefore *)
+    apply andb_prop in Hvalid. destruct Hvalid as [Hvn Hvm].
+    apply mem_In in Hvn. apply mem_In in Hvm.
+    destruct (move_before_sim H f b z l vs n m HI Hvn Hvm) as [s' [E HI']].
+    simpl exec. exists s'. split; [exact E|]. split; [exact HI'|intros n0 E0; discriminate].
+  - (* MoveAfter *)
+    apply andb_prop in Hvalid. destruct Hvalid as [Hvn Hvm].
+    apply mem_In in Hvn. apply mem_In in Hvm.
+    destruct (move_after_sim H f b z l vs n m HI Hvn Hvm) as [s' [E HI']].
+    simpl exec. exists s'. split; [exact E|]. split; [exact HI'|intros n0 E0; discriminate].
+  - (* MoveToFront *)
+    apply mem_In in Hvalid. destruct l as [|f0 t0]; [contradiction|].
+    destruct HL as [_ [_ [Hf _]]]. simpl in Hf. subst f.
+    destruct (move_before_sim H (Some f0) b z (f0 :: t0) vs n f0 HI Hvalid (or_introl eq_refl))
+      as [s' [E HI']].
+    simpl exec. unfold move_to_front. simpl front. exists s'. split; [exact E|].
+    split; [|intros n0 E0; discriminate].
+    rewrite move_to_front_spec. exact HI'.
+  - (* MoveToBack *)
+    apply mem_In in Hvalid.
+    destruct (list_rev_case l) as [-> | [t0 [y ->]]]; [contradiction|].
+    destruct HL as [_ [_ [_ [Hb _]]]]. rewrite lastp_app in Hb. simpl in Hb. subst b.
+    assert (Hy : In y (t0 ++ [y])) by (rewrite in_app_iff; simpl; auto).
+    destruct (move_after_sim H f (Some y) z (t0 ++ [y]) vs n y HI Hvalid Hy) as [s' [E HI']].
+    simpl exec. unfold move_to_back. simpl back. exists s'. split; [exact E|].
+    split; [|intros n0 E0; discriminate].
+    rewrite move_to_back_spec by assumption. exact HI'.
+  - (* Clear *)
+    simpl exec. eexists. split; [reflexivity|]. split; [|intros n0 E0; discriminate].
+    unfold clear, Inv, Lk. simpl. repeat split; auto.
+    + constructor.
+    + intros x [].
+Qed.
+
+(* ------------------------------------------------------------------------------------------ *)
+(* I. the walks of the harness on a well-linked state                                         *)
+(* ------------------------------------------------------------------------------------------ *)
+
+Lemma walk_next_seg H p l fuel :
+  seg H p l None -> (forall x, In x l -> x < length H) -> length l < fuel ->
+  walk next fuel H (hdp l None) = l.
+Proof.
+  revert p fuel; induction l as [|a t IH]; intros p fuel Hs Hal Hf.
+  - destruct fuel; reflexivity.
+  - destruct fuel as [|fuel]; [simpl in Hf; lia|].
+    simpl in Hs. destruct Hs as [_ [Hn Hs]].
+    destruct (nth_error_lt H a (Hal a (or_introl eq_refl))) as [c E].
+    unfold next_of in Hn. rewrite E in Hn.
+    simpl. rewrite E, Hn. f_equal.
+    apply IH with (p := Some a); [exact Hs| |simpl in Hf; lia].
+    intros x Hx. apply Hal. right. exact Hx.
+Qed.
+
+Lemma walk_prev_seg H l q fuel :
+  seg H None l q -> (forall x, In x l -> x < length H) -> length l < fuel ->
+  walk prev fuel H (lastp None l) = rev l.
+Proof.
+  revert q fuel; induction l as [|a l' IH] using rev_ind; intros q fuel Hs Hal Hf.
+  - destruct fuel; reflexivity.
+  - rewrite app_length in Hf. simpl in Hf.
+    destruct fuel as [|fuel]; [lia|].
+    apply seg_snoc in Hs. destruct Hs as [Hs [Hp _]].
+    assert (Ha : a < length H) by (apply Hal; rewrite in_app_iff; simpl; auto).
+    destruct (nth_error_lt H a Ha) as [c E].
+    unfold prev_of in Hp. rewrite E in Hp.
+    rewrite lastp_app, rev_unit. simpl. rewrite E, Hp. f_equal.
+    apply IH with (q := Some a); [exact Hs| |lia].
+    intros x Hx. apply Hal. rewrite in_app_iff. auto.
+Qed.
+
+Lemma nodup_bounded_length (l : list nat) n :
+  NoDup l -> (forall x, In x l -> x < n) -> length l <= n.
+Proof.
+  intros Hnd Hal. rewrite <- (seq_length n 0). apply NoDup_incl_length; [exact Hnd|].
+  intros x Hx. apply in_seq. apply Hal in Hx. lia.
+Qed.
+
+Lemma observe_ideal o s t :
+  Inv s t ->
+  (forall n, o = LRemove n ->
+     n < length (heap s) /\ prev_of (heap s) n = None /\ next_of (heap s) n = None) ->
+  observe o s = sobs t.
+Proof.
+  destruct s as [H [f b z]], t as [l vs]. intros [HL [Hz Hv]] Hiso.
+  simpl in HL, Hz, Hv, Hiso. destruct HL as [Hnd [Hal [Hf [Hb Hs]]]].
+  pose proof (nodup_bounded_length l (length H) Hnd Hal) as Hle.
+  assert (E1 : walk next (S (length H)) H f = l).
+  { subst f. apply walk_next_seg with (p := None); [exact Hs|exact Hal|lia]. }
+  assert (E2 : walk prev (S (length H)) H b = rev l).
+  { subst b. apply walk_prev_seg with (q := None); [exact Hs|exact Hal|lia]. }
+  assert (E4 : map (value_of H) l = map (fun h => nth h vs 0%Z) l).
+  { apply map_ext. intros h. rewrite value_of_nth, Hv. reflexivity. }
+  assert (E5 : end_nil prev H f = true).
+  { subst f. destruct l as [|a t]; [reflexivity|]. simpl.
+    destruct (nth_error_lt H a (Hal a (or_introl eq_refl))) as [c E]. rewrite E.
+    simpl in Hs. destruct Hs as [Hp _]. unfold prev_of in Hp. rewrite E in Hp. rewrite Hp.
+    reflexivity. }
+  assert (E6 : end_nil next H b = true).
+  { subst b. destruct (list_rev_case l) as [-> | [l' [y ->]]]; [reflexivity|].
+    rewrite lastp_app. simpl.
+    assert (Hy : y < length H) by (apply Hal; rewrite in_app_iff; simpl; auto).
+    destruct (nth_error_lt H y Hy) as [c E]. rewrite E.
+    apply seg_snoc in Hs. destruct Hs as [_ [_ Hn]]. unfold next_of in Hn. rewrite E in Hn.
+    rewrite Hn. reflexivity. }
+  assert (E7 : match o with
+               | LRemove n => allocated H n && is_nil (prev_of H n) && is_nil (next_of H n)
+               | _ => true
+               end = true).
+  { destruct o as [v|v|v m|v m|n|n m|n m|n|n|]; try reflexivity.
+    destruct (Hiso n eq_refl) as [Hn [Hp Hx]]. rewrite Hp, Hx. unfold allocated.
+    apply Nat.ltb_lt in Hn. rewrite Hn. reflexivity. }
+  unfold observe, sobs. cbn [heap lst front back size sl svals].
+  rewrite E1, E2, E4, E5, E6, E7, Hz. reflexivity.
+Qed.
+
+(* ------------------------------------------------------------------------------------------ *)
+(* J. whole histories                                                                         *)
+(* ------------------------------------------------------------------------------------------ *)
+
+Lemma inv_empty : Inv empty sempty.
+Proof.
+  unfold Inv, Lk, empty, sempty. simpl. repeat split; auto.
+  - constructor.
+  - intros x [].
+Qed.
+
+Lemma step_sim s t o :
+  Inv s t -> valid_op t o = true ->
+  step s o = (fst (step s o), sobs (sstep t o)) /\ Inv (fst (step s o)) (sstep t o) /\
+  (forall n, o = LRemove n ->
+     prev_of (heap (fst (step s o))) n = None /\ next_of (heap (fst (step s o))) n = None).
+Proof.
+  intros HI Hv. destruct (exec_sim s t o HI Hv) as [s' [E [HI' Hiso]]].
+  unfold step. rewrite E. simpl. rewrite (observe_ideal o s' _ HI' Hiso).
+  split; [reflexivity|]. split; [exact HI'|]. intros n En. apply (Hiso n En).
+Qed.
+
+Lemma run_from_sim ops : forall s t,
+  Inv s t -> valid_from t ops = true ->
+  run_from s ops = srun_from t ops /\
+  Inv (run_state_from s ops) (srun_state_from t ops).
+Proof.
+  induction ops as [|o ops IH]; intros s t HI Hv; simpl.
+  - auto.
+  - simpl in Hv. apply andb_prop in Hv. destruct Hv as [Hvo Hvr].
+    destruct (step_sim s t o HI Hvo) as [E [HI' _]].
+    destruct (IH _ _ HI' Hvr) as [Er HIr].
+    rewrite E. simpl. rewrite Er. auto.
+Qed.
+
+Theorem xlist_refinement ops : valid_ops ops = true -> run ops = srun ops.
+Proof. intros Hv. apply (run_from_sim ops empty sempty inv_empty Hv). Qed.
+
+Theorem xlist_inv ops :
+  valid_ops ops = true -> Inv (run_state ops) (srun_state ops).
+Proof. intros Hv. apply (run_from_sim ops empty sempty inv_empty Hv). Qed.
+
+Lemma inv_rep s t : Inv s t -> Rep s (sl t).
+Proof.
+  destruct s as [H [f b z]], t as [l vs]. intros [HL [Hz _]]. simpl in HL, Hz.
+  destruct HL as [Hnd [Hal [Hf [Hb Hs]]]]. unfold Rep. simpl.
+  split; [exact Hnd|]. split; [rewrite hd_error_hdp; exact Hf|].
+  split; [rewrite last_error_lastp; exact Hb|].
+  split; [|split; [|split; [|split; [exact Hz|exact Hal]]]].
+  - intros l1 a c l2 ->. apply seg_app in Hs. destruct Hs as [_ Hs]. simpl in Hs. tauto.
+  - intros a t0 ->. simpl in Hs. tauto.
+  - intros t0 a ->. apply seg_snoc in Hs. tauto.
+Qed.
+
+Theorem xlist_rep_invariant ops :
+  valid_ops ops = true -> Rep (run_state ops) (sl (srun_state ops)).
+Proof. intros Hv. apply inv_rep. apply xlist_inv. exact Hv. Qed.
+
+(* values *)
+Lemma svals_sstep t o : svals (sstep t o) = svals t ++ created_by o.
+Proof. destruct o; simpl; rewrite ?app_nil_r; reflexivity. Qed.
+
+Lemma svals_srun ops : forall t, svals (srun_state_from t ops) = svals t ++ created ops.
+Proof.
+  induction ops as [|o ops IH]; intros t; simpl.
+  - rewrite app_nil_r. reflexivity.
+  - rewrite IH, svals_sstep, <- app_assoc. reflexivity.
+Qed.
+
+Theorem xlist_values_at_creation ops :
+  valid_ops ops = true -> map value (heap (run_state ops)) = created ops.
+Proof.
+  intros Hv. destruct (xlist_inv ops Hv) as [_ [_ E]]. rewrite E.
+  unfold srun_state. rewrite svals_srun. reflexivity.
+Qed.
+
+Lemma valid_from_app a : forall t b,
+  valid_from t (a ++ b) = valid_from t a && valid_from (srun_state_from t a) b.
+Proof.
+  induction a as [|o a IH]; intros t b; simpl.
+  - reflexivity.
+  - rewrite IH, andb_assoc. reflexivity.
+Qed.
+
+Lemma valid_ops_prefix a b : valid_ops (a ++ b) = true -> valid_ops a = true.
+Proof.
+  unfold valid_ops. rewrite valid_from_app. intros Hv. apply andb_prop in Hv. tauto.
+Qed.
+
+Lemma created_app a b : created (a ++ b) = created a ++ created b.
+Proof. unfold created. apply flat_map_app. Qed.
+
+Theorem xlist_handles_stable ops1 ops2 :
+  valid_ops (ops1 ++ ops2) = true ->
+  let H1 := heap (run_state ops1) in
+  let H2 := heap (run_state (ops1 ++ ops2)) in
+  length H1 <= length H2 /\
+  forall h c, nth_error H1 h = Some c ->
+              exists c', nth_error H2 h = Some c' /\ value c' = value c.
+Proof.
+  intros Hv H1 H2.
+  pose proof (xlist_values_at_creation _ Hv) as E2.
+  pose proof (xlist_values_at_creation _ (valid_ops_prefix _ _ Hv)) as E1.
+  fold H1 in E1. fold H2 in E2. rewrite created_app, <- E1 in E2.
+  assert (Hlen : length H2 = length H1 + length (created ops2)).
+  { rewrite <- (map_length value H2), E2, app_length, map_length. reflexivity. }
+  split; [lia|].
+  intros h c Ec.
+  pose proof (nth_error_some_lt _ _ _ Ec) as Hh.
+  destruct (nth_error_lt H2 h) as [c' Ec']; [lia|].
+  exists c'. split; [exact Ec'|].
+  pose proof (map_nth_error value _ _ Ec') as M2.
+  pose proof (map_nth_error value _ _ Ec) as M1.
+  rewrite E2, nth_error_app1 in M2 by (rewrite map_length; exact Hh).
+  congruence.
+Qed.
+
+Theorem xlist_values_untouched ops1 ops2 :
+  valid_ops (ops1 ++ ops2) = true ->
+  forall h, h < length (heap (run_state ops1)) ->
+            value_of (heap (run_state (ops1 ++ ops2))) h = value_of (heap (run_state ops1)) h.
+Proof.
+  intros Hv h Hh.
+  destruct (xlist_handles_stable ops1 ops2 Hv) as [_ Hst].
+  destruct (nth_error_lt _ h Hh) as [c Ec].
+  destruct (Hst h c Ec) as [c' [Ec' Evc]].
+  unfold value_of. rewrite Ec, Ec'. exact Evc.
+Qed.
+
+Lemma run_state_from_app a : forall s b,
+  run_state_from s (a ++ b) = run_state_from (run_state_from s a) b.
+Proof. induction a as [|o a IH]; intros s b; simpl; auto. Qed.
+
+Lemma srun_state_from_app a : forall t b,
+  srun_state_from t (a ++ b) = srun_state_from (srun_state_from t a) b.
+Proof. induction a as [|o a IH]; intros t b; simpl; auto. Qed.
+
+Theorem xlist_removed_isolated ops n :
+  valid_ops (ops ++ [LRemove n]) = true ->
+  let H := heap (run_state (ops ++ [LRemove n])) in
+  prev_of H n = None /\ next_of H n = None /\ ~ In n (sl (srun_state (ops ++ [LRemove n]))).
+Proof.
+  intros Hv. pose proof (valid_ops_prefix _ _ Hv) as Hv1.
+  pose proof (xlist_inv _ Hv1) as HI.
+  unfold valid_ops in Hv. rewrite valid_from_app in Hv. apply andb_prop in Hv.
+  destruct Hv as [_ Hv2]. simpl in Hv2. rewrite andb_true_r in Hv2.
+  fold (srun_state ops) in Hv2.
+  destruct (step_sim _ _ (LRemove n) HI Hv2) as [_ [_ Hiso]].
+  unfold run_state, srun_state. rewrite run_state_from_app, srun_state_from_app. simpl.
+  destruct (Hiso n eq_refl) as [Hp Hn].
+  split; [exact Hp|]. split; [exact Hn|].
+  destruct HI as [[Hnd _] _]. apply mem_In in Hv2.
+  fold (srun_state ops). destruct (in_split _ _ Hv2) as [l1 [l2 E]]. rewrite E in *.
+  rewrite rem_app by (eapply NoDup_notin_l; exact Hnd).
+  apply NoDup_remove_2 in Hnd. exact Hnd.
+Qed.
+
+(* ------------------------------------------------------------------------------------------ *)
+(* K. non-vacuity                                                                             *)
+(* ------------------------------------------------------------------------------------------ *)
+
+(* every operation; node == mark; node and mark adjacent in both orders; node/mark at either end;
+   a single-element list; re-growth after Clear and after removing every node *)
+Definition example_ops : list op :=
+  [ LPushBack 10; LMoveToFront 0; LMoveToBack 0; LMoveBefore 0 0; LMoveAfter 0 0;   (* single node *)
+    LPushFront 11; LInsertAfter 12 1; LInsertBefore 13 1;                           (* 3 1 2 0 *)
+    LMoveBefore 1 3;   (* node just after mark *)
+    LMoveBefore 1 3;   (* node already just before mark *)
+    LMoveAfter 1 3;    (* node just before mark *)
+    LMoveAfter 1 3;    (* node already just after mark *)
+    LMoveBefore 0 3;   (* last node before first *)
+    LMoveAfter 0 2;    (* first node after last *)
+    LMoveToFront 0; LMoveToBack 0; LMoveToBack 0; LMoveToFront 3; LMoveAfter 2 2;
+    LRemove 3; LRemove 0; LRemove 1; LRemove 2;                                     (* emptied *)
+    LPushFront 14; LPushBack 15; LInsertBefore 16 4; LInsertAfter 17 5;             (* re-grown *)
+    LClear;
+    LPushBack 18; LPushFront 19; LMoveBefore 8 9; LMoveAfter 8 9; LRemove 9; LRemove 8; LClear ].
+
+Example example_valid : valid_ops example_ops = true.
+Proof. vm_compute. reflexivity. Qed.
+
+(* the hypotheses of the split-history theorems are satisfiable as well *)
+Example example_valid_split :
+  valid_ops (firstn 20 example_ops ++ skipn 20 example_ops) = true /\
+  valid_ops ([LPushBack 1; LPushBack 2] ++ [LRemove 0]) = true.
+Proof. vm_compute. split; reflexivity. Qed.
+
+Example example_runs : run example_ops = srun example_ops /\ length (run example_ops) = 35.
+Proof. vm_compute. split; reflexivity. Qed.
+
+Example example_lists :
+  map o_fwd (run example_ops) =
+  [ [0]; [0]; [0]; [0]; [0];
+    [1;0]; [1;2;0]; [3;1;2;0];
+    [1;3;2;0]; [1;3;2;0]; [3;1;2;0]; [3;1;2;0];
+    [0;3;1;2]; [3;1;2;0];
+    [0;3;1;2]; [3;1;2;0]; [3;1;2;0]; [3;1;2;0]; [3;1;2;0];
+    [1;2;0]; [1;2]; [2]; [];
+    [4]; [4;5]; [6;4;5]; [6;4;5;7];
+    [];
+    [8]; [9;8]; [8;9]; [9;8]; [8]; []; [] ].
+Proof. vm_compute. reflexivity. Qed.
+
+(* ------------------------------------------------------------------------------------------ *)
+(* L. reading the refinement theorem                                                          *)
+(* ------------------------------------------------------------------------------------------ *)
+
+(* the i-th ideal observation is the ideal state after the first i+1 operations *)
+Lemma srun_from_nth ops : forall t i,
+  i < length ops ->
+  nth_error (srun_from t ops) i = Some (sobs (srun_state_from t (firstn (S i) ops))).
+Proof.
+  induction ops as [|o ops IH]; intros t i Hi; simpl in Hi; [lia|].
+  destruct i as [|i].
+  - reflexivity.
+  - change (nth_error (srun_from (sstep t o) ops) i =
+            Some (sobs (srun_state_from (sstep t o) (firstn (S i) ops)))).
+    apply IH. lia.
+Qed.
+
+Lemma srun_from_length ops : forall t, length (srun_from t ops) = length ops.
+Proof. induction ops as [|o r IH]; intros t; simpl; [reflexivity|]. rewrite IH. reflexivity. Qed.
+
+Theorem xlist_obs_nth ops i :
+  valid_ops ops = true -> i < length ops ->
+  nth_error (run ops) i = Some (sobs (srun_state (firstn (S i) ops))).
+Proof.
+  intros Hv Hi. rewrite (xlist_refinement ops Hv). apply srun_from_nth. exact Hi.
+Qed.
+
+Theorem xlist_obs_well_formed ops :
+  valid_ops ops = true -> Forall obs_well_formed (run ops).
+Proof.
+  intros Hv. apply Forall_forall. intros ob Hob.
+  destruct (In_nth_error _ _ Hob) as [i Ei].
+  assert (Hi : i < length ops).
+  { assert (Hl : length (run ops) = length ops).
+    { rewrite (xlist_refinement ops Hv). apply srun_from_length. }
+    rewrite <- Hl. apply nth_error_Some. congruence. }
+  rewrite (xlist_obs_nth ops i Hv Hi) in Ei. injection Ei as <-.
+  assert (Hvp : valid_ops (firstn (S i) ops) = true).
+  { apply valid_ops_prefix with (b := skipn (S i) ops). rewrite firstn_skipn. exact Hv. }
+  destruct (xlist_inv _ Hvp) as [[Hnd _] _].
+  unfold obs_well_formed, sobs. simpl. rewrite map_length. repeat split; auto.
 Qed.
